@@ -625,6 +625,29 @@ def execute(history):
                             out.violate("rejected_assignment_changed_state", i, "%s.%s = %s (%s) raised %s but %s" % (entry, pub, _fmt(torch.as_tensor(bad)), bk, type(e).__name__, why), bk=bk, **cls)
                             ref.value[name] = None
                     tag = "set_bad[%s,%s]" % (bk, ckind(c))
+            elif k == "init_raw" and op.get("as_float"):
+                # initialize(raw_x=<Python float>): finite or not.  (On the pinned tree every enforced constraint answers
+                # with TypeError - its transform is applied to the bare float in the bound check - which is not judged;
+                # what is judged: a refused call leaves the state alone, a non-finite raw value is never accepted, an
+                # accepted finite one reads back as transform(raw).)
+                fv = [float("nan"), float("inf"), float("-inf")][int(op["u"] * 3) % 3] if op["u"] < 0.4 else (op["u"] - 0.7) * 8.0
+                before = snapshot(module)
+                try:
+                    owner.initialize(**{raw: fv})
+                    if fv != fv or fv in (float("inf"), float("-inf")):
+                        out.violate("bad_assignment_accepted", i, "%s.initialize(%s=%r) (a non-finite Python float) was accepted; %s now reads %s" % (entry, raw, fv, pub, _fmt(read(owner, pub))), bk="nonfinite_raw_float", **cls)
+                        ref.value[name] = None
+                    else:
+                        ref.value[name] = c.transform(torch.full(tuple(rawp.shape), fv, dtype=dtype)).detach().clone()
+                        ref.loose.discard(name)
+                        accepted = True
+                    out.stats["probe:float_raw_initialize_accepted"] += 1
+                except (TypeError, RuntimeError, ValueError) as e:
+                    out.stats["rejected:float_raw_initialize_" + type(e).__name__] += 1
+                    why = same_state(before, snapshot(module))
+                    if why and not (isinstance(e, ValueError) and "prior" in str(e)):
+                        out.violate("rejected_assignment_changed_state", i, "%s.initialize(%s=%r) raised %s but %s" % (entry, raw, fv, type(e).__name__, why), bk="raw_float", **cls)
+                tag = "init_raw_float[%s]" % ckind(c)
             elif k == "init_raw":
                 g = torch.Generator().manual_seed(op["seed"])
                 rawv = (torch.randn(rawp.shape, generator=g, dtype=dtype) * 2.0)
